@@ -2,8 +2,9 @@
 # tools/try_seed.sh <seed-dir-name> <pid> [more pids...]: confirm a seeded defect and run the checks against it.
 # The seed lives in /tmp/seed/<name>/ (patch.diff, demo.py, meta.json). A fresh scratch worktree of /repo is used.
 name=$1; shift
-S=/tmp/seed/$name
-W=/tmp/seed/eval-$name
+R=${SEEDROOT:-/tmp/seed}
+S=$R/$name
+W=$R/eval-$name
 git -C /repo worktree remove --force $W 2>/dev/null
 git -C /repo worktree add -q $W HEAD || exit 2
 (cd $W && git apply $S/patch.diff) || { echo "PATCH DOES NOT APPLY"; git -C /repo worktree remove --force $W; exit 2; }
